@@ -574,6 +574,14 @@ def check_style(fg, bg, attrs):
         ansi_case("IO.format(style=)", io.format(B_TEXT_STYLED, style=st) + io.format(B_NEXT), seg_single)
         ansi_case("IO.format(style=)+tags", io.format(B_MIXED, style=st) + io.format(B_NEXT), seg_mixed)
         plain_case("IO.format(style=)", BufferedIO().format(B_TEXT_STYLED, style=st), B_TEXT_STYLED)
+        # 3b. a single-call style given together with an empty or tags-only text: nothing to decorate,
+        #     and the next (tagged) call on the same formatter must not inherit the style
+        for way, empty in (("format(style=)+empty-text", ""), ("format(style=)+tags-only-text", "<b></b>")):
+            f4 = _ansi()
+            shown = strip_sgr(f4.format(empty, style=st))
+            if shown != "":
+                out.append(("b:text:" + way, "format(%r, style=) shows %r" % (empty, shown), "", shown))
+            ansi_case(way, f4.format(B_NEXT), seg_next)
     except Exception as e:
         out.append(("b:crash:" + report.exc_site(e), "style fg=%s bg=%s %s raised %r" % (fg, bg, sorted(attrs), e), None, repr(e)))
     return out
